@@ -82,7 +82,11 @@ ExpectedRead(fmt, doc) == {f \in Facts(doc) : Carried(fmt, f)}
 \* the part of a document a format can express: what is rendered in that format, and what is expected of it
 IsObj(doc, n) == \E t \in Range(doc.types) : t.name = n /\ t.kind = "object"
 MapSeq(s, g(_)) == [i \in DOMAIN s |-> g(s[i])]
-XsdDoc(doc) == [types |-> SelectSeq(doc.types, LAMBDA t : t.kind # "array"), eps |-> <<>>]
+\* XSD has no named array type: such types go, and with them the fields that refer to them
+XsdKeeps(doc, f) == ~\E t \in Range(doc.types) : t.kind = "array" /\ f.base = "ref:" \o t.name
+XsdDoc(doc) == [types |-> MapSeq(SelectSeq(doc.types, LAMBDA t : t.kind # "array"),
+                                 LAMBDA t : [t EXCEPT !.fields = SelectSeq(t.fields, LAMBDA f : XsdKeeps(doc, f))]),
+                eps |-> <<>>]
 SqlField(doc, f) == f.base \in Prims \/ \E t \in Range(doc.types) : t.kind = "object" /\ f.base = "ref:" \o t.name
 SqlDoc(doc) ==
   [types |-> MapSeq(SelectSeq(doc.types, LAMBDA t : t.kind = "object"),
